@@ -5,6 +5,7 @@
 import RbModel.Lemmas.Morx
 import RbModel.Lemmas.MorxPurge
 import RbModel.Lemmas.MorxOffRange
+import RbModel.Lemmas.MorxIns
 
 namespace RbModel.Morx
 open RbModel.Spec.Aat
@@ -371,6 +372,55 @@ example : ∃ b : RbModel.Buf, RbModel.Buf.Inv b ∧ 0 < RbModel.Buf.total b ∧
   ⟨{ info := [{ gid := 1 }, { gid := 2, cluster := 1 }], out := [{}, {}], idx := 1, len := 2, outLen := 1,
      haveOutput := true },
    ⟨by decide, by decide, by decide, (fun h => by simp at h), (fun _ => by decide), rfl⟩, by decide, by decide⟩
+
+/-- **C17_insertion_marked_is_list_insertion.** The marked-insertion block of `InsertionCtx::transition`
+    (`InsS.insMarked`: charge `max_ops` with the count, `move_to(mark)`, `[copy_glyph]; output_glyph × c; [skip_glyph]`,
+    `move_to(end + c)`, the glyph-flag bookkeeping) on the in/out buffer of the shared model is Apple's marked insertion
+    as a list insertion. For every buffer satisfying the representation invariant and holding at least one glyph, every
+    mark that is not behind the output cursor, every entry with a marked-insert index, an operation budget that the
+    count does not exhaust and an insertion list whose `c = flags & MARKED_INSERT_COUNT` glyphs are present: no panic;
+    the transition goes on (`true`); and either an allocation was refused (buffer marked unsuccessful) or
+      * the logical glyph sequence `out[0..out_len) ++ info[idx..len)` is the old one with exactly the `c` glyphs
+        `glyphs[x2], …, glyphs[x2 + c - 1]`, in that order, inserted before the MARKED glyph (`MARKED_INSERT_BEFORE`
+        set, or the mark at the end of the text) or after it — each a copy of the marked glyph's record with the glyph
+        id replaced (`markedSrc`: the marked glyph, at the end of the text the last glyph);
+      * nothing is lost or duplicated (`total` grows by `c`);
+      * the output cursor has moved on by `c`: it stands behind the same glyphs as before the insertion, so the current
+        glyph is still the current glyph. The mark register itself is not touched by this block (it is a parameter;
+        `InsS.transition` afterwards sets it to the *old* output cursor when SET_MARK is on, as HarfBuzz does).
+    The two generated variants of buffer.rs it needs (`ensureGrowOnly`, `moveToRewindReversed` — the repairs of D6
+    and D5) are discharged by `decide`, so a regression of either breaks this theorem. -/
+theorem C17_insertion_marked_is_list_insertion (glyphs : Nat → Option Nat) (mark : Nat) (e : Entry) (b : RbModel.Buf)
+    (hinv : RbModel.Buf.Inv b) (hne : 0 < RbModel.Buf.total b) (hmark : mark ≤ b.outLen) (hx2 : e.x2 ≠ 0xFFFF)
+    (hops : 0 < b.maxOps - ((e.flags &&& RbModel.Gen.Morx.INS_MARKED_INSERT_COUNT : Nat) : Int))
+    (hgl : ∀ k, k < (e.flags &&& RbModel.Gen.Morx.INS_MARKED_INSERT_COUNT) → (glyphs (e.x2 + k)).isSome = true) :
+    ∃ b' x, RbModel.Buf.markedSrc b mark = some x ∧ InsS.insMarked glyphs mark e b = .ok (b', true) ∧
+      (b'.successful = false ∨
+       (RbModel.Buf.Inv b' ∧ b'.successful = b.successful ∧
+        RbModel.Buf.total b' = RbModel.Buf.total b + (e.flags &&& RbModel.Gen.Morx.INS_MARKED_INSERT_COUNT) ∧
+        b'.outLen = b.outLen + (e.flags &&& RbModel.Gen.Morx.INS_MARKED_INSERT_COUNT) ∧
+        ∀ q, RbModel.Buf.seq b' q =
+          RbModel.Buf.insertedAt b
+            (if mark < RbModel.Buf.total b ∧ bit e.flags RbModel.Gen.Morx.INS_MARKED_INSERT_BEFORE = false
+             then mark + 1 else mark)
+            glyphs e.x2 (e.flags &&& RbModel.Gen.Morx.INS_MARKED_INSERT_COUNT) x q)) :=
+  RbModel.Buf.insMarked_zipper glyphs mark e b hinv hne hmark hx2 hops hgl (by decide) (by decide)
+
+/-- non-vacuity: three glyphs `1 2 3`, two already on the output side, the mark on the first; an entry that inserts
+    two glyphs (20, 21) AFTER the marked glyph: the hypotheses hold and the model computes `1 20 21 2 3` with the
+    output cursor behind `2` again (4 = 2 + 2 glyphs on the output side). -/
+example : ∃ (glyphs : Nat → Option Nat) (e : Entry) (b : RbModel.Buf),
+    RbModel.Buf.Inv b ∧ 0 < RbModel.Buf.total b ∧ 0 ≤ b.outLen ∧ e.x2 ≠ 0xFFFF ∧
+    0 < b.maxOps - ((e.flags &&& RbModel.Gen.Morx.INS_MARKED_INSERT_COUNT : Nat) : Int) ∧
+    (∀ k, k < (e.flags &&& RbModel.Gen.Morx.INS_MARKED_INSERT_COUNT) → (glyphs (e.x2 + k)).isSome = true) ∧
+    (InsS.insMarked glyphs 0 e b).toOption.map
+      (fun r => (r.2, r.1.outLen, (List.range 6).map (fun q => (RbModel.Buf.seq r.1 q).map (·.gid)))) =
+      some (true, 4, [some 1, some 20, some 21, some 2, some 3, none]) :=
+  ⟨fun k => some (20 + k), ⟨0, 2, 0xFFFF, 0⟩,
+   { info := [{ gid := 1 }, { gid := 2, cluster := 1 }, { gid := 3, cluster := 2 }], out := [{}, {}, {}], idx := 2, len := 3,
+     outLen := 2, haveOutput := true, maxOps := 100 },
+   ⟨by decide, by decide, by decide, (fun h => by simp at h), (fun _ => by decide), rfl⟩, by decide, by decide, by decide,
+   by decide, (fun k _ => rfl), by decide +kernel⟩
 
 /-! ## deleted glyphs are purged, whoever positions -/
 
